@@ -1,8 +1,9 @@
 #!/venv/bin/python
 """Copy a sub-agent's deliverable (<root>/<P>/_seed/{patch,demo,meta}_k) into /verif/seeded/<P>-<as_k>/.
-usage: import_wave.py <root> <P> <k> <as_k>"""
+usage: import_wave.py <root> <P> <k> <as_k> [wave label]"""
 import json, os, shutil, sys
 root, P, k, as_k = sys.argv[1:5]
+wave = sys.argv[5] if len(sys.argv) > 5 else "wave 5"
 src = f"{root}/{P}/_seed"
 dst = f"/verif/seeded/{P}-{as_k}"
 os.makedirs(dst, exist_ok=True)
@@ -15,7 +16,7 @@ if isinstance(tests, str):
 # the registry test needs the network (Sokoban dataset) and fails on the unchanged tree too: never part of the confirmation
 tests = [t for t in tests if "registration_test" not in t]
 meta = {"property": P, "summary": m.get("summary"), "needs": m.get("needs"),
-        "author": "independent sub-agent given only the property text and a scratch worktree (wave 4)",
+        "author": "independent sub-agent given only the property text and a scratch worktree (" + wave + ")",
         "author_tests_run": m.get("tests_run"), "demo": "demo.py", "tests": tests}
 json.dump(meta, open(f"{dst}/meta.json", "w"), indent=1)
 print(dst, (meta["summary"] or "")[:100])
